@@ -312,7 +312,8 @@ impl CraneliftCompiler {
                         loaded
                     };
 
-                    self.set_dst(bcx, &insn, ext);
+                    // Absolute and indirect loads always write R0, whatever the dst field holds.
+                    bcx.def_var(self.registers[0], ext);
                 }
                 ebpf::LD_DW_IMM => {
                     insn_ptr += 1;
